@@ -111,6 +111,14 @@ class View:
                 base = self.table_ref(a0[2][0])
                 if base:
                     return ('subslice', base, a0[2][1])
+                # TABLE[a..][..n]: a sub-slice of a sub-slice
+                b0 = self.strip(a0[2][0])
+                while b0[0] in ('ref', 'deref'):
+                    b0 = self.strip(b0[1])
+                if b0[0] == 'call' and b0[1] == INDEX:
+                    base = self.table_ref(b0[2][0])
+                    if base:
+                        return ('subslice2', base, b0[2][1], a0[2][1])
             return None
         if key == INTO_ITER:
             inner = self.iter_source(args[0])
